@@ -788,9 +788,31 @@ def main(tier, seed, replay=None):
             cs = gen_set(rng, "k%d" % i, ["tcp-reuse-early", "seqwrap"][i % 2])
             cut_files(rng, cs, "contig")
             sets.append((cs, schedules_c05(rng, cs, "contig")))
-    text = "".join(render_case(cs, runs) for cs, runs in sets)
-    res, note, cf, dt_go = run_impl(text, "main")
-    mres, mnote, dt_model = (res, "", 0.0) if nomodel else run_model(exe, cf, "main")
+    # a few sets are also imported with snapshot points every few packets (overlay, see snap_overlay)
+    snap_sets = []
+    if not replay:
+        for i in range(24 if tier == "quick" else 600):
+            cs = gen_set(rng, "s%d" % i, MAIN_REGIMES[i % len(MAIN_REGIMES)])
+            cut_files(rng, cs, "contig")
+            nf = len(cs.files)
+            runs = [("snap%d" % k, rng.choice([1, 2, 3, 5, 8, 20]),
+                     [(rng.choice([0, 0, 1, 2, 3]), rng.sample(b, len(b))) for b in partitions_in_order(rng, nf)]) for k in range(2)]
+            snap_sets.append((cs, runs))
+    use_overlay = {cs.name for cs, _ in snap_sets}
+    if replay and json.load(open(replay)).get("snap_overlay"):
+        use_overlay = {cs.name for cs, _ in sets}
+        snap_sets, sets = sets, []
+    res, mres, note, mnote, dt_go, dt_model = {}, {}, "", "", 0.0, 0.0
+    for tag, group in (("main", sets), ("snap", snap_sets)):
+        if not group:
+            continue
+        text = "".join(render_case(cs, runs) for cs, runs in group)
+        r, n1, cf, dt = run_impl(text, tag, overlay_extra=(snap_overlay() if tag == "snap" else None))
+        m, n2, dtm = (r, "", 0.0) if nomodel else run_model(exe, cf, tag)
+        res.update(r)
+        mres.update(m)
+        note, mnote, dt_go, dt_model = note + n1, mnote + n2, dt_go + dt, dt_model + dtm
+    sets = sets + snap_sets
     nviol, kf_seen, verdicts = 0, {}, {"ok": 0}
     samples = []
     model_diffs = 0
@@ -818,13 +840,13 @@ def main(tier, seed, replay=None):
                 sub, r2 = nonempty_runs(restrict(cs, cids), [r for r in runs if r[0] == label])
                 if not sub.packets:
                     return False
-                rr, _, _, _ = run_impl(render_case(sub, r2), "min")
+                rr, _, _, _ = run_impl(render_case(sub, r2), "min", overlay_extra=(snap_overlay() if cs.name in use_overlay else None))
                 return any(v == "violation" for _, v, _, _ in check_set(sub, r2, rr))
             cids = ddmin([c.cid for c in cs.convs], fails, max_tests=40)
             sub, r2 = nonempty_runs(restrict(cs, cids), [r for r in runs if r[0] == label])
-            rr, _, _, _ = run_impl(render_case(sub, r2), "min")
+            rr, _, _, _ = run_impl(render_case(sub, r2), "min", overlay_extra=(snap_overlay() if cs.name in use_overlay else None))
             mm = rr if nomodel else run_model(exe, os.path.join(BUILD, "run", "c05", "cases_min.txt"), "min")[0]
-            violation(PROP, {"property": PROP, "kind": "impl!=ground-truth", "set": set_to_json(sub, r2), "errors": check_set(sub, r2, rr)[0][2][:10],
+            violation(PROP, {"property": PROP, "kind": "impl!=ground-truth", "snap_overlay": cs.name in use_overlay, "set": set_to_json(sub, r2), "errors": check_set(sub, r2, rr)[0][2][:10],
                              "impl_visible": [show_stream(s) for s in (rr.get(sub.name, {}).get(label, {"steps": [{"streams": {}}]})["steps"] or [{"streams": {}}])[-1]["streams"].values()],
                              "model_visible": [show_stream(s) for s in (mm.get(sub.name, {}).get(label, {"steps": [{"streams": {}}]})["steps"] or [{"streams": {}}])[-1]["streams"].values()],
                              "expected": ["%s %s>%s %s" % (e["proto"], e["client"], e["server"], [(d, b.hex()) for d, b in e["runs"]]) for e in expected_streams(sub)],
